@@ -370,7 +370,7 @@ def _open_if(s):
     return False
 
 
-def well_typed_program(rng, ndecls=None, with_main=True):
+def well_typed_program(rng, ndecls=None, with_main=True, shadow=True):
     """returns (prog, env)"""
     env = Env()
     prog = []
@@ -414,9 +414,11 @@ def well_typed_program(rng, ndecls=None, with_main=True):
         sc = _Scope(env, locals_)
         stmts = [_stmt(rng, sc) for _ in range(rng.choice([0, 1, 2, 3, 4, 6, 9]))]
         prog.append(("proc", name, params, vars_, stmts))
-    if rng.random() < 0.15:
+    if shadow and rng.random() < 0.15:
         # legal shadowing (tools/navlib.py): a local named like its procedure / a type / `int` / another or a predefined procedure,
-        # a parameter named like the type of a later parameter - still a valid program, the global environment is unchanged
+        # a parameter named like the type of a later parameter - still a valid program, the global environment is unchanged.
+        # Callers that ADD declarations afterwards (fault injectors, cross-reference programs) pass shadow=False or filter with
+        # semtest.shadows_type: a variable declared behind a local named like its type would not be well-typed
         import navlib
         prog = navlib.legal_shadowing(prog, rng)
     return prog, env
